@@ -1,8 +1,10 @@
 #!/bin/bash
 # tools/try_seed.sh <patch.diff> <Cxx> [tier]  : apply a seeded change to /repo, run the check, always revert.
+# The evidence file and replays of the unchanged tree are preserved (a seed run must not overwrite committed evidence).
 P="$1"; ID="$2"; TIER="${3:-quick}"
 cd /verif
 if ! git -C /repo diff --quiet; then echo "/repo is dirty; refusing"; exit 9; fi
-trap 'git -C /repo checkout -- . ; git -C /repo status --short | head -3' EXIT
+cp -f evidence/$ID.json .scratch/evidence_$ID.keep 2>/dev/null
+trap 'git -C /repo checkout -- . ; git -C /repo status --short | head -3; cp -f .scratch/evidence_'$ID'.keep evidence/'$ID'.json 2>/dev/null; mkdir -p .scratch/seed_replays; mv replays/'$ID'/* .scratch/seed_replays/ 2>/dev/null' EXIT
 git -C /repo apply "$P" || { echo "patch does not apply"; exit 8; }
 ./check "$ID" --tier "$TIER"; echo "rc=$?"
